@@ -2633,8 +2633,18 @@ class DiskObjectStore(PackBasedObjectStore):
             sha = hex_to_sha(cast(ObjectID, sha))
 
         midx = self.get_midx()
-        if midx is not None and sha in midx:
-            return True
+        if midx is not None:
+            result = midx.object_offset(sha)
+            if result is not None:
+                # A multi-pack-index outlives the packs it was written for
+                # (repack, gc): believe it only while the pack it names is
+                # still there, as get_raw does.
+                pack_name, _offset = result
+                try:
+                    self._get_pack_by_name(pack_name)
+                    return True
+                except (KeyError, PackFileDisappeared):
+                    pass
 
         # Fall back to checking individual packs
         return super().contains_packed(sha)
